@@ -488,7 +488,15 @@ fn case_strategy() -> impl Strategy<Value = Case> {
         1 => Just(Op::Unknown),
         2 => (0u8..4, 0u8..6).prop_map(|(i, k)| Op::Near(i, k)),
     ];
-    (doc, proptest::collection::vec(op, 5..40)).prop_map(|(doc, history)| Case { doc, history })
+    (doc, proptest::collection::vec(op, 5..40), proptest::option::weighted(0.4, 0usize..4)).prop_map(|(mut doc, history, chart_at)| {
+        // a chart sheet among the worksheets: positions in sheet_names() and positions among the
+        // worksheets then differ, which is what worksheet_range_at(n) must not confuse
+        if let (Doc::Xlsx(d), Some(k)) = (&mut doc, chart_at) {
+            let k = k.min(d.sheets.len());
+            d.sheets.insert(k, xx::XSheet { name: "Chart 1".into(), kind: 1, ..Default::default() });
+        }
+        Case { doc, history }
+    })
 }
 
 fn run(ctx: &mut Ctx) {
